@@ -14,7 +14,7 @@ import PyaModel.Core.Annot
   keyword-only defaults by name). Validated against the real `inspect` (stream `inspect`).
 * `Supported` — the fragment of the annotation vocabulary the theorems quantify over.
 * Exception class (finding) `D13_starUnpack` and the representation-only classes
-  `R13_typingDedup`, `R13_unannotated`. (The former classes `finalQuoted` and `dunderPosOnly` were
+  `R13_typingDedup`, `R13_unannotated`. (The former classes `asyncGenInferred` — repaired by c03851a; a header-level regression case of the harness —, `finalQuoted` and `dunderPosOnly` were
   repaired in /repo by d560eeb and 96446dc; model and theorems now cover them, their witnesses are
   regression theorems in Props/C13.lean.)
 -/
@@ -517,14 +517,6 @@ the function object carries the object the name was bound to when the `def` ran,
 evaluates the expression in the module's final scope (`K = A; def f(x: K): ...; K = B`). -/
 def D13_reboundName (env : NameEnv) (d : DefArgs) : Bool :=
   !d.future && !d.annAll (stableNames env)
-
-/-- **D13.asyncGenInferred**: an `async def` with `yield` (an async generator) without a return
-annotation. The two *signatures* agree (`Any[unannotated]`, not wrapped), but the return value
-pyanalyze infers from the body for later calls in the defining module
-(`NameCheckVisitor._set_argspec_to_retval`, name_check_visitor.py:2180, outside this model) is wrapped
-in `Coroutine[...]` for every `AsyncFunctionDef`, generator or not: a call is `Coroutine` +
-`missing_await` next to the def and `Any` from an importing module. -/
-def D13_asyncGenInferred (d : DefArgs) : Bool := d.kind == .asyncGen && d.returns.isNone
 
 def isUnpackTop : AnnExpr → Bool
   | .unpack _ => true
